@@ -37,8 +37,15 @@ package main
 // here they reach the DB directly, as data written before the repair would: compared with the model only (which
 // transcribes the ambiguity); what the reference would say is counted under c15:wild:* (Properties/C15.v, *_refuted).
 //
+// BACKGROUND activity of the DB: 35% of the cases run real rounds of the notifications trimmer between the writes
+// and the index reads (op X:<now>:<retention> of c17_notif.go = kv.VerifTrimNotifications with a mocked clock,
+// notifications enabled, cut-offs that really delete batches), a third of them on disk with close + reopen (R)
+// before and after a round.  A trimming round may only touch notification batches: the mirror is checked on the
+// full dump right after it and the queries that follow are judged as usual.  These cases are of kind "nseq"
+// (grammar of "seq" plus X; the model's trim is Db/NotifStream.v).
+//
 // Corpus / replay lines of kind "iseq" have the grammar of "seq"; they are executed with these verdicts and
-// recorded as "seq" cases for the model ("wseq": same, not judged by the reference).
+// recorded as "seq" cases for the model ("wseq": same, not judged by the reference; "xseq": recorded as "nseq").
 
 import (
 	"bytes"
@@ -60,6 +67,7 @@ func init() {
 	modes["c15"] = func(o *hx.Out, f hx.Flags) { c15Gen(o, hx.NewRng(f.Seed^0xc15), f.N) }
 	replayKinds["iseq"] = c15Replay
 	replayKinds["wseq"] = c15Replay
+	replayKinds["xseq"] = c15Replay
 }
 
 const c15IdxPrefix = "__oxia/idx/"
@@ -379,6 +387,14 @@ func (c *c15Run) checkRead(op, res string) {
 
 // do executes one op through the shared runner and evaluates the C15 verdicts on its result
 func (c *c15Run) do(op string) string {
+	if strings.HasPrefix(op, "X:") {
+		res, _ := c17Exec(c.r, op) // one real trimming round
+		c.r.ops = append(c.r.ops, op)
+		c.r.res = append(c.r.res, res)
+		c.o.Count("c15:trim:" + res)
+		c.checkMirror("after the trimming round " + op + " => " + res)
+		return res
+	}
 	res := c.r.do(op)
 	switch {
 	case strings.HasPrefix(op, "W:"):
@@ -395,7 +411,15 @@ func c15Replay(o *hx.Out, t []string) {
 	shard, err := strconv.ParseInt(t[2], 10, 64)
 	hx.Must(err)
 	ops := strings.Split(t[4], ";")
-	runCase(o, "seq", shard, false, "replay", "", func(r *runner) {
+	kind, disk := "seq", false
+	if t[0] == "xseq" {
+		kind = "nseq"
+	}
+	for _, op := range ops {
+		disk = disk || op == "R"
+	}
+	runCase(o, kind, shard, disk, "replay", "", func(r *runner) {
+		r.ref = newRef()
 		c := &c15Run{r: r, o: o, ref: &c15Ref{decl: map[string][][2]string{}}, tag: "replay", wild: t[0] == "wseq"}
 		for _, op := range ops {
 			c.do(op)
@@ -628,7 +652,15 @@ func c15Gen(o *hx.Out, rng *hx.Rng, n int) {
 		shard := int64(1 + crng.Intn(9))
 		flavour := crng.Intn(10)
 		tag := fmt.Sprintf("c15case#%d", cs)
-		runCase(o, "seq", shard, false, tag, fmt.Sprintf("%d", crng.U64()), func(r *runner) {
+		// background activity: trimming rounds (flavours 3..9 only: the trimmer needs notifications), some on disk with reopen
+		trims := flavour >= 3 && crng.Chance(50)
+		disk := trims && crng.Chance(10)
+		kind := "seq"
+		if trims {
+			kind = "nseq"
+		}
+		runCase(o, kind, shard, disk, tag, fmt.Sprintf("%d", crng.U64()), func(r *runner) {
+			r.ref = newRef()
 			c := &c15Run{r: r, o: o, ref: &c15Ref{decl: map[string][][2]string{}}, tag: tag}
 			g := &c15G{gen: &gen{rng: crng, r: r, o: o, off: -1, ts: 1000 + uint64(crng.Intn(100000)), seqParts: map[string]int{}},
 				c: c, pks: c15Pks, closed: map[int64]bool{}}
@@ -671,6 +703,12 @@ func c15Gen(o *hx.Out, rng *hx.Rng, n int) {
 			o.Count(fmt.Sprintf("c15:case:%d-indexes", k))
 			bare := flavour < 3
 			g.bare = bare
+			if trims {
+				o.Count("c15:case:trimming-rounds")
+			}
+			if disk {
+				o.Count("c15:case:on-disk-with-reopen")
+			}
 			if bare {
 				// no notifications, no sessions, no '/' in primary keys: index entries are the LAST keys of the DB
 				r.do("E:0")
@@ -690,6 +728,18 @@ func c15Gen(o *hx.Out, rng *hx.Rng, n int) {
 					}
 				default:
 					g.write(g.request())
+				}
+				if trims && i >= 3 && crng.Chance(22) {
+					o.Count("c15:case-step:trim")
+					if disk && crng.Chance(40) {
+						r.do("R")
+					}
+					// cut-off somewhere inside the history: the older batches go
+					ts0 := g.ts - uint64(5*i)
+					g.c.do(fmt.Sprintf("X:%d:%d", g.ts, crng.Intn(int(g.ts-ts0)+1)))
+					if disk && crng.Chance(40) {
+						r.do("R")
+					}
 				}
 				g.queries(2 + crng.Intn(5))
 				if flavour == 9 && i == 4 {
